@@ -1,1 +1,392 @@
-//! placeholder
+//! `enum hash` — C15: content hashes are true SHA-256 and the 43-character text form is
+//! a bijection.  Exhaustive over finite families chosen at the boundaries the code has
+//! (256-byte read buffer, 43-digit padding, 32-byte overflow); the limit is stated in
+//! the evidence: all byte strings / all 2^256 values are not enumerable.
+use std::collections::{BTreeMap, BTreeSet};
+use std::sync::Arc;
+
+use serde_json::{json, Value};
+
+use crate::memsys::{bytes, Cfg, ClockModel, Fs, MemSystem};
+use crate::refsha;
+use crate::report::{Report, Violation};
+use crate::ticket::{Ticket, TicketFactory};
+
+fn fill(pattern: usize, len: usize) -> Vec<u8>
+{
+    (0..len).map(|i| match pattern
+    {
+        0 => 0u8,
+        1 => (i % 251) as u8,
+        _ => ((i * 7 + 13) ^ (i >> 3)) as u8,
+    }).collect()
+}
+
+struct Bad
+{
+    map: BTreeMap<String, String>,
+}
+
+impl Bad
+{
+    fn add(&mut self, what: &str, detail: String)
+    {
+        self.map.entry(what.to_string()).or_insert(detail);
+    }
+}
+
+fn ruler_hash_of_file(data: &[u8], chunk: Option<usize>, path: &str, mtime: u64) -> Result<String, String>
+{
+    let mut fs = Fs::new();
+    fs.put(path, Arc::new(data.to_vec()), mtime, None);
+    let mut cfg = Cfg::plain(ClockModel::Strict);
+    cfg.read_chunk = chunk;
+    let sys = MemSystem::new(fs, cfg);
+    let p = path.to_string();
+    match std::panic::catch_unwind(move || TicketFactory::from_file(&sys, &p).map(|mut f| f.result().human_readable()))
+    {
+        Ok(Ok(s)) => Ok(s),
+        Ok(Err(e)) => Err(format!("{:?}", e)),
+        Err(_) => Err("panic".to_string()),
+    }
+}
+
+#[derive(Clone, Debug, PartialEq, Eq, PartialOrd, Ord)]
+enum Tr
+{
+    File(Vec<u8>),
+    Dir(BTreeMap<String, Tr>),
+}
+
+fn put_tree(fs: &mut Fs, prefix: &str, t: &BTreeMap<String, Tr>)
+{
+    fs.map.insert(prefix.to_string(), crate::memsys::Node::Dir);
+    for (k, v) in t
+    {
+        let p = format!("{}/{}", prefix, k);
+        match v
+        {
+            Tr::File(d) => fs.put(&p, Arc::new(d.clone()), 5, None),
+            Tr::Dir(c) => put_tree(fs, &p, c),
+        }
+    }
+}
+
+fn dir_hash(t: &BTreeMap<String, Tr>) -> Result<String, String>
+{
+    let mut fs = Fs::new();
+    put_tree(&mut fs, "root", t);
+    let sys = MemSystem::new(fs, Cfg::plain(ClockModel::Strict));
+    match std::panic::catch_unwind(move || TicketFactory::from_directory(&sys, "root").map(|mut f| f.result().human_readable()))
+    {
+        Ok(Ok(s)) => Ok(s),
+        Ok(Err(e)) => Err(format!("{:?}", e)),
+        Err(_) => Err("panic".to_string()),
+    }
+}
+
+/// all trees with exactly `n` entries in total and depth <= `depth`, names from `names`, contents from `contents`
+fn trees(n: usize, depth: usize, names: &[&str], contents: &[&[u8]]) -> Vec<BTreeMap<String, Tr>>
+{
+    // forests: choose a first entry (name, kind) and distribute the remaining entries
+    fn forests(n: usize, depth: usize, names: &[&str], contents: &[&[u8]], min_name: usize) -> Vec<BTreeMap<String, Tr>>
+    {
+        if n == 0 { return vec![BTreeMap::new()]; }
+        let mut out = vec![];
+        for ni in min_name..names.len()
+        {
+            // a file
+            for c in contents
+            {
+                for rest in forests(n - 1, depth, names, contents, ni + 1)
+                {
+                    let mut m = rest.clone();
+                    m.insert(names[ni].to_string(), Tr::File(c.to_vec()));
+                    out.push(m);
+                }
+            }
+            // a directory with k entries inside
+            if depth > 1
+            {
+                for k in 0..n
+                {
+                    for inner in forests(k, depth - 1, names, contents, 0)
+                    {
+                        for rest in forests(n - 1 - k, depth, names, contents, ni + 1)
+                        {
+                            let mut m = rest.clone();
+                            m.insert(names[ni].to_string(), Tr::Dir(inner.clone()));
+                            out.push(m);
+                        }
+                    }
+                }
+            }
+        }
+        out
+    }
+    forests(n, depth, names, contents, 0)
+}
+
+fn single_point_changes(t: &BTreeMap<String, Tr>, fresh_name: &str, other: &[u8]) -> Vec<BTreeMap<String, Tr>>
+{
+    let mut out = vec![];
+    for (k, v) in t
+    {
+        // rename this entry
+        if !t.contains_key(fresh_name)
+        {
+            let mut m = t.clone();
+            let x = m.remove(k).unwrap();
+            m.insert(fresh_name.to_string(), x);
+            out.push(m);
+        }
+        match v
+        {
+            Tr::File(d) =>
+            {
+                let mut m = t.clone();
+                let mut nd = d.clone();
+                if nd == other { nd.push(b'!'); } else { nd = other.to_vec(); }
+                m.insert(k.clone(), Tr::File(nd));
+                out.push(m);
+            },
+            Tr::Dir(c) =>
+            {
+                for ch in single_point_changes(c, fresh_name, other)
+                {
+                    let mut m = t.clone();
+                    m.insert(k.clone(), Tr::Dir(ch));
+                    out.push(m);
+                }
+            },
+        }
+    }
+    out
+}
+
+pub fn run(rep: &mut Report, tier: &str)
+{
+    let thorough = tier == "thorough";
+    let mut bad = Bad { map: BTreeMap::new() };
+    let mut evals = 0u64;
+    let mut distinct_hashes: BTreeSet<String> = BTreeSet::new();
+
+    // 1. files of every length 0..=1100 x 3 fill patterns, short reads included
+    let max_len = if thorough { 2200 } else { 1100 };
+    let chunks: Vec<Option<usize>> = vec![None, Some(1), Some(255), Some(256), Some(257)];
+    for len in 0..=max_len
+    {
+        for pat in 0..3
+        {
+            let data = fill(pat, len);
+            let want = refsha::encode62(&refsha::sha256(&data));
+            distinct_hashes.insert(want.clone());
+            for ch in &chunks
+            {
+                if *ch == Some(1) && len > 600 && !thorough { continue; }
+                evals += 1;
+                match ruler_hash_of_file(&data, *ch, "f", 7)
+                {
+                    Ok(got) => if got != want { bad.add("file hash differs from SHA-256 of its bytes", format!("length {} pattern {} read-chunk {:?}: {} vs {}", len, pat, ch, got, want)); },
+                    Err(e) => bad.add("hashing a file failed", format!("length {} pattern {} read-chunk {:?}: {}", len, pat, ch, e)),
+                }
+            }
+            // independent of path and age
+            if len % 97 == 0
+            {
+                evals += 1;
+                if ruler_hash_of_file(&data, None, "dir/sub/file.bin", 123456789).ok().as_ref() != Some(&want)
+                {
+                    bad.add("file hash depends on path or modification time", format!("length {}", len));
+                }
+            }
+        }
+    }
+
+    // 2. text form: encode -> decode identity and agreement with the independent base-62
+    let mut values: Vec<[u8; 32]> = vec![[0u8; 32], [0xff; 32]];
+    for pos in 0..32 { for b in [1u8, 0x7f, 0x80, 0xff] { let mut v = [0u8; 32]; v[pos] = b; values.push(v); } }
+    for k in 0..=256usize
+    {
+        // 2^k (k<256) and 2^k - 1, little-endian
+        if k < 256 { let mut v = [0u8; 32]; v[k / 8] = 1 << (k % 8); values.push(v); }
+        let mut v = [0u8; 32];
+        for bit in 0..k { v[bit / 8] |= 1 << (bit % 8); }
+        values.push(v);
+    }
+    // powers of 62 and neighbours (padding boundaries)
+    {
+        let mut v = [0u8; 40];
+        v[0] = 1;
+        for _ in 0..43
+        {
+            let mut x = [0u8; 32];
+            x.copy_from_slice(&v[..32]);
+            if v[32..].iter().all(|b| *b == 0) { values.push(x); let mut y = x; if y[0] > 0 { y[0] -= 1; values.push(y); } }
+            let mut carry = 0u32;
+            for limb in v.iter_mut() { let cur = (*limb as u32) * 62 + carry; *limb = cur as u8; carry = cur >> 8; }
+        }
+    }
+    for data in [&b""[..], b"a", b"abc", b"ruler"] { values.push(refsha::sha256(data)); }
+    for v in &values
+    {
+        evals += 1;
+        let mine = refsha::encode62(v);
+        // ruler's text form of the same 256-bit value: obtained through its deserialiser-free public API
+        let t: Ticket = match bincode::deserialize::<Ticket>(v) { Ok(t) => t, Err(_) => { bad.add("cannot build a ticket from 32 bytes", refsha::hex(v)); continue; } };
+        let theirs = t.human_readable();
+        if theirs.len() != 43 || theirs != mine
+        {
+            bad.add("text form differs from the independent base-62 encoding", format!("{}: {} vs {}", refsha::hex(v), theirs, mine));
+        }
+        match Ticket::from_human_readable(&theirs)
+        {
+            Ok(back) => if back != t { bad.add("text form does not decode back to the same hash", refsha::hex(v)); },
+            Err(e) => bad.add("text form of a valid hash is rejected", format!("{}: {:?}", refsha::hex(v), e)),
+        }
+    }
+
+    // 3. decode: every (position, digit) single-digit string, incl. the overflow boundary
+    let digits = b"0123456789abcdefghijklmnopqrstuvwxyzABCDEFGHIJKLMNOPQRSTUVWXYZ";
+    for pos in 0..43
+    {
+        for d in digits.iter()
+        {
+            let mut s = vec![b'0'; 43];
+            s[pos] = *d;
+            let s = String::from_utf8(s).unwrap();
+            evals += 1;
+            let want = refsha::decode62(&s);
+            let got = Ticket::from_human_readable(&s);
+            match (&want, &got)
+            {
+                (Ok(w), Ok(g)) =>
+                {
+                    let gb = bincode::serialize(g).unwrap_or_default();
+                    if gb != w.to_vec() { bad.add("decoded value differs from the independent decoding", s.clone()); }
+                    if g.human_readable() != s { bad.add("decode then encode is not the identity", s.clone()); }
+                },
+                (Err(_), Err(_)) => {},
+                (Ok(_), Err(e)) => bad.add("a valid 43-character encoding is rejected", format!("{} {:?}", s, e)),
+                (Err(e), Ok(_)) => bad.add("a string that is not an encoding of a 256-bit value is accepted", format!("{} ({:?})", s, e)),
+            }
+        }
+    }
+    // largest value and the strings just above it
+    {
+        let max = refsha::encode62(&[0xff; 32]);
+        evals += 1;
+        if Ticket::from_human_readable(&max).is_err() { bad.add("the encoding of 2^256-1 is rejected", max.clone()); }
+        let mut b = max.clone().into_bytes();
+        for pos in 0..43
+        {
+            // increase one digit: value exceeds 2^256-1 unless a lower digit compensates; check with the reference
+            for d in digits.iter()
+            {
+                let old = b[pos];
+                b[pos] = *d;
+                let s = String::from_utf8(b.clone()).unwrap();
+                evals += 1;
+                let want = refsha::decode62(&s).is_ok();
+                let got = Ticket::from_human_readable(&s).is_ok();
+                if want != got { bad.add(if want { "a valid 43-character encoding is rejected" } else { "a value too large for 256 bits is accepted" }, s.clone()); }
+                b[pos] = old;
+            }
+        }
+        let z = "Z".repeat(43);
+        if Ticket::from_human_readable(&z).is_ok() { bad.add("a value too large for 256 bits is accepted", z); }
+    }
+
+    // 4. strings that are not encodings: every string of length <= 2 over all bytes, every length 0..60 of '0',
+    //    every single-character substitution of a valid tag by a non-alphanumeric
+    for a in 0..=255u8
+    {
+        let s1 = String::from_utf8_lossy(&[a]).to_string();
+        evals += 1;
+        if Ticket::from_human_readable(&s1).is_ok() { bad.add("a 1-character string is accepted as a hash", s1.clone()); }
+        for b2 in 0..=255u8
+        {
+            if let Ok(s2) = String::from_utf8(vec![a, b2])
+            {
+                evals += 1;
+                if Ticket::from_human_readable(&s2).is_ok() { bad.add("a 2-character string is accepted as a hash", s2); }
+            }
+        }
+    }
+    for len in 0..=60
+    {
+        evals += 1;
+        let s = "0".repeat(len);
+        let ok = Ticket::from_human_readable(&s).is_ok();
+        if ok != (len == 43) { bad.add("wrong-length string accepted or 43 zeros rejected", format!("length {}", len)); }
+    }
+    {
+        let valid = refsha::encode62(&refsha::sha256(b"valid"));
+        for pos in 0..43
+        {
+            for c in ["-", "_", ".", "/", " ", "%", "+", "=", "\u{e9}", "\u{0}", "~", "\\"]
+            {
+                let mut s: Vec<char> = valid.chars().collect();
+                let cs: Vec<char> = c.chars().collect();
+                s[pos] = cs[0];
+                let s: String = s.into_iter().collect();
+                evals += 1;
+                match std::panic::catch_unwind(|| Ticket::from_human_readable(&s).is_ok())
+                {
+                    Ok(true) => bad.add("a string with a foreign character is accepted as a hash", s.clone()),
+                    Ok(false) => {},
+                    Err(_) => bad.add("decoding panicked", s.clone()),
+                }
+            }
+        }
+    }
+
+    // 5. directory hashes: every tree shape with <= 3 entries and depth <= 2 x every single-point change
+    let names = ["a", "b", "c"];
+    let contents: [&[u8]; 2] = [b"x", b"y"];
+    let mut tree_count = 0u64;
+    let mut change_count = 0u64;
+    for n in 1..=(if thorough { 4 } else { 3 })
+    {
+        for t in trees(n, 2, &names, &contents)
+        {
+            tree_count += 1;
+            let h = match dir_hash(&t) { Ok(h) => h, Err(e) => { bad.add("hashing a directory failed", format!("{:?}: {}", t, e)); continue; } };
+            evals += 1;
+            for ch in single_point_changes(&t, "zz", b"y")
+            {
+                change_count += 1;
+                evals += 1;
+                match dir_hash(&ch)
+                {
+                    Ok(h2) => if h2 == h { bad.add("directory hash unchanged after a contained name or content changed", format!("{:?} vs {:?}", t, ch)); },
+                    Err(e) => bad.add("hashing a directory failed", format!("{:?}: {}", ch, e)),
+                }
+            }
+        }
+    }
+
+    rep.set("evaluations", json!(evals));
+    rep.set("states", json!(distinct_hashes.len() + values.len()));
+    rep.set("transitions", json!(evals));
+    rep.set("traces_validated_against_impl", json!(evals));
+    rep.set("distinct_nontrivial", json!(distinct_hashes.len()));
+    rep.set("file_lengths", json!(format!("0..={} x 3 fill patterns x read-chunk sizes {:?}", max_len, chunks)));
+    rep.set("values_for_text_form", json!(values.len()));
+    rep.set("directory_trees", json!(tree_count));
+    rep.set("directory_single_point_changes", json!(change_count));
+    rep.set("exhaustive", json!(true));
+    rep.set("rule", json!("exhaustive over the listed finite families only; SHA-256 equality for all byte strings and the bijection for all 2^256 values are not enumerable"));
+    rep.push_sample(json!({"file_length": 256, "pattern": "i mod 251", "read_chunk": 255}));
+    rep.push_sample(json!({"encoding": refsha::encode62(&[0xff; 32]), "meaning": "2^256-1, the largest accepted value"}));
+    for (what, detail) in bad.map
+    {
+        rep.violation(Violation
+        {
+            property: "C15".into(),
+            signature: format!("C15:hash:{}", what),
+            summary: format!("{}: {}", what, detail),
+            replay: json!({"engine": "hash", "what": what, "detail": detail}),
+        });
+    }
+}
